@@ -71,6 +71,7 @@ Definition inspect_parameter (p : sig_param) : parameter :=
 Definition inspect_kinds : list string := ["POSITIONAL_ONLY"; "POSITIONAL_OR_KEYWORD"; "VAR_POSITIONAL"; "KEYWORD_ONLY"; "VAR_KEYWORD"].
 
 (* ---------- docstring parsers ---------- *)
+(* (the dataclasses extension, which needs docstrings, follows them) *)
 
 Record ssection := mkSSection { ss_class : string; ss_value : secvalue; ss_title : option string }.
 Record sdoc := mkSDoc { sd_value : string; sd_lineno : option Z; sd_endlineno : option Z; sd_sections : list ssection }.
@@ -81,6 +82,19 @@ Definition build_section (s : ssection) : section :=
 Definition build_doc (d : sdoc) : docstring :=
   mkDoc (sd_value d) (sd_lineno d) (sd_endlineno d) (map build_section (sd_sections d)).
 
+(* ---------- extensions/dataclasses.py: the synthesised __init__ ---------- *)
+
+(* one field that takes part in __init__: keyword-only or not is decided by the extension from kw_only arguments and the
+   KW_ONLY sentinel; whatever it decides, the kind is one of two ParameterKind members *)
+Record synth_param := mkSynth { sy_name : string; sy_annotation : aval; sy_kw_only : bool; sy_default : aval; sy_doc : option sdoc }.
+
+Definition synth_parameter (p : synth_param) : parameter :=
+  mkParam (sy_name p) (sy_annotation p) (Some (if sy_kw_only p then dataclass_kw_kind else dataclass_other_kind))
+          (sy_default p) (option_map build_doc (sy_doc p)).
+
+Definition synth_init (fields : list synth_param) : kindspec :=
+  KFunction [] (mkParam "self" ANone (Some dataclass_self_kind) ANone None :: map synth_parameter fields) (AStr "None").
+
 (* ---------- whole trees ---------- *)
 
 Inductive sspec :=
@@ -89,7 +103,8 @@ Inductive sspec :=
 | SFunction (decos : list (aval * ast_pos)) (arguments : ast_arguments) (returns : aval)   (* visitor *)
 | SInspected (params : list sig_param) (returns : pyann)                                    (* inspector: no decorators *)
 | SAttribute (value annotation : aval)
-| SProperty (returns : pyann).                                                              (* inspector: property -> attribute *)
+| SProperty (returns : pyann)
+| SDataclassInit (fields : list synth_param).                                               (* dataclasses extension *)                                                              (* inspector: property -> attribute *)
 
 Definition build_spec (s : sspec) : kindspec :=
   match s with
@@ -99,6 +114,7 @@ Definition build_spec (s : sspec) : kindspec :=
   | SInspected params returns => KFunction [] (map inspect_parameter params) (convert_annotation returns)
   | SAttribute value annotation => KAttribute value annotation
   | SProperty returns => KAttribute ANone (convert_annotation returns)
+  | SDataclassInit fields => synth_init fields
   end.
 
 (* where the finder found a module: one file, or the directories of a namespace (sub)package -- at least one *)
@@ -142,6 +158,8 @@ Definition ssection_src_ok (s : ssection) : bool :=
 Definition sdoc_src_ok (d : option sdoc) : bool :=
   match d with Some d => forallb ssection_src_ok (sd_sections d) | None => true end.
 
+Definition synth_src_ok (p : synth_param) : bool := aval_ok (sy_annotation p) && aval_ok (sy_default p) && sdoc_src_ok (sy_doc p).
+
 Definition sspec_src_ok (s : sspec) : bool :=
   match s with
   | SModule => true
@@ -150,6 +168,7 @@ Definition sspec_src_ok (s : sspec) : bool :=
   | SInspected params returns => forallb sig_src_ok params && ann_src_ok returns
   | SAttribute value annotation => aval_ok value && aval_ok annotation
   | SProperty returns => ann_src_ok returns
+  | SDataclassInit fields => forallb synth_src_ok fields
   end.
 
 Fixpoint src_ok (s : src) : bool :=
@@ -168,7 +187,7 @@ Definition load_tables_ok : bool :=
   forallb (fun b => match bucket_kind b with Some k => str_in k enc_parameter_kinds | None => false end)
           ["posonlyargs"; "args"; "vararg"; "kwonlyargs"; "kwarg"]
   && forallb (fun k => match lookup k inspect_kind_map with Some v => str_in v enc_parameter_kinds | None => false end) inspect_kinds
-  && forallb (fun k => str_in k enc_parameter_kinds) loader_param_kinds
+  && forallb (fun k => str_in k enc_parameter_kinds) (dataclass_kw_kind :: dataclass_other_kind :: dataclass_self_kind :: loader_param_kinds)
   && forallb (ends_with ".lineno") decorator_lineno_sources
   && forallb (fun c => match lookup c section_classes with Some k => key_in k section_table | None => false end) parser_section_classes.
 
@@ -224,6 +243,12 @@ Definition run_load (s : sexp) : option sexp :=
       Some (match arguments_of a with Some a' => SList (map sexp_of_param (visit_parameters a')) | None => bad_input end)
   | SList [SStr "inspect-params"; l] =>
       Some (match as_list_of sig_of l with Some l' => SList (map sexp_of_param (map inspect_parameter l')) | None => bad_input end)
+  | SList [SStr "synth-kinds"; l] =>
+      Some (match as_list_of as_bool l with
+            | Some l' => SList (map (fun p => of_opt SStr (p_kind p)) (match synth_init (map (fun b => mkSynth "" ANone b ANone None) l') with
+                                                                       | KFunction _ ps _ => ps | _ => [] end))
+            | None => bad_input
+            end)
   | SList [SStr "load-tables"] => Some (SList [of_bool load_tables_ok])
   | _ => None
   end.
